@@ -52,6 +52,10 @@ func zzMenuAVP1(kind int, code uint32) (a *AVP, ref []byte, ty datatype.TypeID) 
 // After every prefix: Header.MessageLength == len(Serialize()) == the 24-bit field in the bytes;
 // at the end: bytes == reference message; WriteTo through a dirtied pooled buffer writes the same
 // bytes (padding zero on the wire); reading back gives the same header and AVP tree.
+type zzC02Marsh struct {
+	L []*AVP `avp:"Q"`
+}
+
 func zzC02_message() {
 	d := vAbstractDict()
 	app := vU32("app")
@@ -65,7 +69,16 @@ func zzC02_message() {
 	for i := 0; i < nops; i++ {
 		kind := vChoice("menu", vParam("MENU", 5))
 		a, ref, _ := zzMenuAVP(kind, d, app)
-		switch vChoice("op", 3) {
+		switch vChoice("op", vParam("OPKINDS", 4)) {
+		case 3:
+			// Marshal of a struct holding the ready-made AVP: it replaces whatever the message held
+			if _, derr := d.FindAVP(app, "Q"); derr != nil {
+				continue // the dictionary does not define the tag's name: Marshal refuses, message unchanged
+			}
+			merr := m.Marshal(&zzC02Marsh{L: []*AVP{a}})
+			vAssert(merr == nil, "Marshal of ready-made AVPs succeeds")
+			refAVPs = [][]byte{ref}
+			want = []*AVP{a}
 		case 0:
 			na, err := m.NewAVP(a.Code, a.Flags, a.VendorID, a.Data)
 			vAssert(err == nil && na != nil, "NewAVP by numeric code succeeds")
